@@ -665,3 +665,17 @@ func init() {
 		}
 	}
 }
+
+func init() {
+	for _, prop := range []string{"C19", "C11"} {
+		prop := prop
+		prev := registry[prop]
+		registry[prop] = func(c *Ctx) {
+			prev(c)
+			if p := c.Prog("amd64"); p != nil {
+				c.Clauses = append(c.Clauses, prop+".reinitshare: (*InputShare).New assigns both the leader and the helper layout on every path (an object re-initialised for another aggregator does not keep the other role's layout)")
+				checkMustWrite(c, p, prop+".reinitshare", "vdaf/prio3/internal/prio3", "InputShare", "New", []string{".leader", ".helper"}, "exactly one of the two is set, by the aggregator id")
+			}
+		}
+	}
+}
